@@ -624,7 +624,12 @@ macro_rules! mul_div_fallback {
                     self.overflowing_div(rhs)
                 } else {
                     const NBITS: u32 = <$Single>::NBITS;
-                    let lhs2 = (self >> (NBITS - frac_nbits), (self << frac_nbits) as $Uns);
+                    let lhs2 = if frac_nbits == NBITS {
+                        // shifting by the full width is not allowed
+                        (self, 0)
+                    } else {
+                        (self >> (NBITS - frac_nbits), (self << frac_nbits) as $Uns)
+                    };
                     let (quot2, _) = rhs.div_rem_from(lhs2);
                     let quot = quot2.1 as $Single;
                     let overflow = if_signed_unsigned! {
